@@ -1,0 +1,13 @@
+//go:build verif
+
+package process
+
+// Contracts for govc (/verif). Comment-only file: no executable code, not part of the default build.
+
+/*@
+// ---- C20: the "no fork" object ----
+func NewForkInfo() (r *ForkInfo)
+  ensures  fresh(r)
+  ensures  no-fork: !r.IsDetected && r.Nonce == 18446744073709551615 && r.Round == 18446744073709551615 && len(r.Hash) == 0
+  assigns  nothing
+@*/
